@@ -33,6 +33,7 @@ func runC07(w *World, r *Report) {
 	r.Rule("C07/WIRING", "TakeOwnership is never fed from a differently named option and upgrade --install carries it over", 2)
 	checkWiring(w, r, "C07/WIRING", map[string]bool{"TakeOwnership": true})
 	checkCarried(w, r, "C07/WIRING", []string{"TakeOwnership"})
+	checkFlagBinding(w, r, "C07/WIRING", map[string]bool{"TakeOwnership": true})
 	c07CheckFirst(w, r, ef)
 	c07CheckContent(w, r)
 	c07IdentityKey(w, r)
